@@ -20,7 +20,7 @@ from bfsa.terms import C, NONE, Term, cval, is_const, mk, show, sym, xor_canon
 from rules import c16stream as S
 
 BEC2 = "bec2format.bec2file"
-INLINE = ("register_crypto_plugin", "bec2format.bec2file", "bec2format.crypto", "bec2format.bytes_reader", "bec2format.bf3file")
+INLINE = ("register_crypto_plugin", "bec2format.bec2file", "bec2format.crypto", "bec2format.bytes_reader", "bec2format.bf3file", "bec2format.configid")
 
 
 def pol(ex, fi, depth):
